@@ -5,7 +5,7 @@ package main
 // generated deterministically.
 
 import (
-	"fmt"
+		"fmt"
 	"math/rand"
 	"os"
 	"path/filepath"
@@ -16,123 +16,233 @@ type leaf struct {
 	text     string
 	nullable bool // can succeed without consuming
 	name     string
+	ef       bool // nullable with an empty first set (pure lookahead)
 }
 
 var schemaLeaves = []leaf{
-	{"'a'", false, "chr"},
-	{"[b-d]", false, "rng"},
-	{".", false, "dot"},
-	{"\"e\"", false, "ci"},
-	{"[^f]", false, "neg"},
-	{"Rc", false, "rule-consuming"},
-	{"Rn", true, "rule-nullable-always"},
-	{"Rz", true, "rule-zero-width-fallible"},
-	{"Rr", false, "rule-recursive"},
+	{"'a'", false, "chr", false},
+	{"[b-d]", false, "rng", false},
+	{".", false, "dot", false},
+	{"\"e\"", false, "ci", false},
+	{"[^f]", false, "neg", false},
+	{"Rc", false, "rule-consuming", false},
+	{"Rn", true, "rule-nullable-always", false},
+	{"Rz", true, "rule-zero-width-fallible", true},
+	{"Rr", false, "rule-recursive", false},
 }
 
 const schemaHelpers = `
-Rc <- 'r' 's'?
+Rc <- <'r'> 's'? {p.n += len(text)}
 Rn <- 'n'*
 Rz <- &'z'
 Rr <- '(' Rr ')' / 'q'
 `
 
 type shape struct {
-	text string
-	desc string
+	text   string
+	desc   string
+	ef     bool // nullable with an empty first set
+	hazard bool // contains a choice of >= 3 alternatives one of which has an empty first set (-switch known finding)
+	alts   int  // number of top-level alternatives if the shape is a choice (the front end flattens a leading choice)
+	efAlt  bool // some top-level alternative has an empty first set
+	null   bool // may succeed without consuming
+	nullAlt bool // some top-level alternative may succeed without consuming
 }
 
-// depth1Shapes: every operator over every leaf (tuples for n-ary operators: all pairs, sampled triples).
+func leafShape(l leaf) shape {
+	s := shape{text: l.text, desc: l.name, ef: l.ef, null: l.nullable}
+	if l.name == "ci" {
+		s.alts = 2 // "e" is the choice 'e' / 'E'
+	}
+	return s
+}
+
+func par(s shape) string {
+	for _, l := range schemaLeaves {
+		if l.text == s.text {
+			return s.text
+		}
+	}
+	if s.text == "'z'" || strings.HasPrefix(s.text, "{") || strings.HasPrefix(s.text, "&{") || strings.HasPrefix(s.text, "!{") {
+		return s.text
+	}
+	return "(" + s.text + ")"
+}
+
+func mkSeq(desc string, parts ...shape) shape {
+	out := shape{desc: desc, ef: true, null: true}
+	var ts []string
+	for _, p := range parts {
+		ts = append(ts, par(p))
+		out.ef = out.ef && p.ef
+		out.null = out.null && p.null
+		out.hazard = out.hazard || p.hazard
+	}
+	out.text = strings.Join(ts, " ")
+	return out
+}
+
+func mkAlt(desc string, parts ...shape) shape {
+	out := shape{desc: desc, ef: true}
+	var ts []string
+	total := 0
+	nullNonLast := false
+	for i, p := range parts {
+		if i < len(parts)-1 {
+			if i == 0 && p.alts > 0 {
+				nullNonLast = nullNonLast || p.nullAlt
+			} else {
+				nullNonLast = nullNonLast || p.null
+			}
+		}
+		if i == 0 && p.alts > 0 {
+			out.nullAlt = out.nullAlt || p.nullAlt
+		} else {
+			out.nullAlt = out.nullAlt || p.null
+		}
+		ts = append(ts, par(p))
+		out.ef = out.ef && p.ef
+		out.null = out.null || p.null
+		out.hazard = out.hazard || p.hazard
+		if i == 0 && p.alts > 0 {
+			total += p.alts
+			out.efAlt = out.efAlt || p.efAlt
+		} else {
+			total++
+			out.efAlt = out.efAlt || p.ef
+		}
+	}
+	out.alts = total
+	if total >= 3 && (out.efAlt || nullNonLast) {
+		out.hazard = true // -switch known findings: empty first set ('<nil>' case label) / nullable alternative that is not the last
+	}
+	out.text = strings.Join(ts, " / ")
+	return out
+}
+
+func mkUn(op string, x shape) shape {
+	out := shape{desc: op + "(" + x.desc + ")", hazard: x.hazard, ef: x.ef, null: x.null}
+	switch op {
+	case "query":
+		out.text, out.null = par(x)+"?", true
+	case "star":
+		out.text, out.null = par(x)+"*", true
+	case "plus":
+		out.text = par(x) + "+"
+	case "peekfor":
+		out.text, out.ef, out.null = "&"+par(x), true, true
+	case "peeknot":
+		out.text, out.ef, out.null = "!"+par(x), true, true
+	case "push":
+		out.text = "<" + x.text + ">"
+	}
+	return out
+}
+
+var unaryNames = []string{"query", "star", "plus", "peekfor", "peeknot", "push"}
+
+// depth1Shapes: every operator over every leaf (all pairs for binary operators in the thorough tier, a
+// covering quarter in the quick tier; sampled triples).
 func depth1Shapes(rng *rand.Rand, full bool) []shape {
 	var out []shape
-	L := schemaLeaves
-	add := func(t, d string) { out = append(out, shape{t, d}) }
-	for _, a := range L {
-		add(a.text+"?", "query")
-		if !a.nullable {
-			add(a.text+"*", "star")
-			add(a.text+"+", "plus")
-		}
-		add("&"+a.text, "peekfor")
-		add("!"+a.text, "peeknot")
-		add("<"+a.text+">", "push")
-		add(a.text+" {p.n++}", "seq-action")
-		add("&{p.ok} "+a.text, "pred-seq")
-		add("!{p.n++} "+a.text, "statechange-seq")
-		add(a.text+" /", "alt-empty-last")
+	var L []shape
+	for _, l := range schemaLeaves {
+		L = append(L, leafShape(l))
 	}
-	pairs := 0
-	for i, a := range L {
-		for j, b := range L {
-			if !full && (i*7+j*3)%4 != 0 {
+	action := shape{text: "{p.n += len(text)}", desc: "action", ef: true, null: true}
+	pred := shape{text: "&{p.ok}", desc: "pred", ef: true, null: true}
+	state := shape{text: "!{p.n++}", desc: "statechange", ef: true, null: true}
+	for _, a := range L {
+		for _, op := range unaryNames {
+			if (op == "star" || op == "plus") && a.null {
 				continue
 			}
-			pairs++
-			add(a.text+" "+b.text, "seq2")
-			add(a.text+" / "+b.text, "alt2")
+			out = append(out, mkUn(op, a))
+		}
+		out = append(out, mkSeq("seq-action", a, action), mkSeq("pred-seq", pred, a), mkSeq("statechange-seq", state, a))
+		e := mkAlt("alt-empty-last", a)
+		e.text += " /"
+		e.alts++
+		e.null = true
+		if e.alts >= 3 {
+			e.hazard = true // single-rune alternatives plus an empty last alternative: unused label under -switch
+		}
+		out = append(out, e)
+	}
+	for i, a := range L {
+		for j, b := range L {
+			if !full && (i*7+j*3)%6 != 0 {
+				continue
+			}
+			out = append(out, mkSeq("seq2", a, b), mkAlt("alt2", a, b))
 		}
 	}
-	triples := 24
+	triples := 12
 	if full {
 		triples = 120
 	}
 	for t := 0; t < triples; t++ {
 		a, b, c := L[rng.Intn(len(L))], L[rng.Intn(len(L))], L[rng.Intn(len(L))]
-		add(a.text+" "+b.text+" "+c.text, "seq3")
-		add(a.text+" / "+b.text+" / "+c.text, "alt3")
+		out = append(out, mkSeq("seq3", a, b, c), mkAlt("alt3", a, b, c))
 		if t%3 == 0 {
 			d := L[rng.Intn(len(L))]
-			add(a.text+" / "+b.text+" / "+c.text+" / "+d.text, "alt4")
+			out = append(out, mkAlt("alt4", a, b, c, d))
 		}
 	}
 	return out
 }
 
-var unaryOps = []struct{ pre, post, desc string }{
-	{"(", ")?", "query"}, {"(", ")*", "star"}, {"(", ")+", "plus"}, {"&(", ")", "peekfor"}, {"!(", ")", "peeknot"}, {"<", ">", "push"},
-}
-
-func nullableShape(s string) bool {
-	// conservative: anything ending in ? or * or containing only lookaheads/nullable rules
-	t := strings.TrimSpace(s)
-	return strings.HasSuffix(t, "?") || strings.HasSuffix(t, "*") || strings.HasSuffix(t, "/") || strings.HasPrefix(t, "&") || strings.HasPrefix(t, "!") ||
-		strings.Contains(t, "Rn") || strings.Contains(t, "Rz") || strings.Contains(t, "{")
-}
-
-// depth2Shapes: an operator applied to a depth-1 shape (and a leaf for binary operators).
+// depth2Shapes: an operator applied to a depth-1 shape (and leaves for the n-ary operators).
 func depth2Shapes(rng *rand.Rand, d1 []shape, count int) []shape {
 	var out []shape
-	L := schemaLeaves
+	var L []shape
+	for _, l := range schemaLeaves {
+		L = append(L, leafShape(l))
+	}
+	chrZ := shape{text: "'z'", desc: "chr"}
 	for len(out) < count {
 		in := d1[rng.Intn(len(d1))]
-		inner := "(" + in.text + ")"
 		switch rng.Intn(4) {
 		case 0:
-			op := unaryOps[rng.Intn(len(unaryOps))]
-			if (op.desc == "star" || op.desc == "plus") && nullableShape(in.text) {
+			op := unaryNames[rng.Intn(len(unaryNames))]
+			if (op == "star" || op == "plus") && in.null {
 				continue
 			}
-			out = append(out, shape{op.pre + in.text + op.post, op.desc + "(" + in.desc + ")"})
+			out = append(out, mkUn(op, in))
 		case 1:
 			b := L[rng.Intn(len(L))]
 			if rng.Intn(2) == 0 {
-				out = append(out, shape{inner + " " + b.text, "seq(" + in.desc + ",leaf)"})
+				out = append(out, mkSeq("seq("+in.desc+",leaf)", in, b))
 			} else {
-				out = append(out, shape{b.text + " " + inner, "seq(leaf," + in.desc + ")"})
+				out = append(out, mkSeq("seq(leaf,"+in.desc+")", b, in))
 			}
 		case 2:
 			b := L[rng.Intn(len(L))]
 			if rng.Intn(2) == 0 {
-				out = append(out, shape{inner + " / " + b.text, "alt(" + in.desc + ",leaf)"})
+				out = append(out, mkAlt("alt("+in.desc+",leaf)", in, b))
 			} else {
-				out = append(out, shape{b.text + " / " + inner, "alt(leaf," + in.desc + ")"})
+				out = append(out, mkAlt("alt(leaf,"+in.desc+")", b, in))
 			}
 		case 3:
 			b, c := L[rng.Intn(len(L))], L[rng.Intn(len(L))]
-			out = append(out, shape{b.text + " / " + inner + " " + c.text + " / 'z'", "alt3(leaf,seq(" + in.desc + ",leaf),chr)"})
+			out = append(out, mkAlt("alt3(leaf,seq("+in.desc+",leaf),chr)", b, mkSeq("", in, c), chrZ))
 		}
 	}
 	return out
+}
+
+// witnesses of the -switch defects found with this framework (all repaired by fix: commits)
+var regressionShapes = []string{
+	"(('b'* / 'a') 'c' / 'x' / [0-9])",
+	"('a' / 'b'* / 'c') .*",
+	"'x' / [a-c]* 'd' / [0-9]",
+	"'x' / 'a'? 'a' 'd' / [0-9]",
+	"[g-z] / ([a-d] 'x' / [c-f] 'y') / '1'",
+	"[g-z] / [a-c]? 'd' / '1'",
+	"[g-z] / 'a'* 'a' 'd' / '1'",
+	"[g-z] / <[a-c]> 'x' / '1' / [d-f]+ 'y'",
+	"'a' / Rz / 'b'",
+	"Rn / Rr / 'a'",
 }
 
 type SchemaFile struct {
@@ -148,7 +258,7 @@ func writeSchemas(dir, tier string, seed int) ([]*SchemaFile, error) {
 	rng := rand.New(rand.NewSource(20260925))
 	full := tier == "thorough"
 	d1 := depth1Shapes(rng, full)
-	n2 := 60
+	n2 := 40
 	if full {
 		n2 = 900
 	}
@@ -158,40 +268,108 @@ func writeSchemas(dir, tier string, seed int) ([]*SchemaFile, error) {
 		// quick tier: depth 1 completely, a seed-chosen part of depth 2 (already sampled above)
 		_ = seed
 	}
-	perFile := 150
+	perFile := 100
 	var files []*SchemaFile
 	_ = os.MkdirAll(dir, 0o755)
-	for i := 0; i < len(all); i += perFile {
-		j := i + perFile
-		if j > len(all) {
-			j = len(all)
+	var plain, hazards []shape
+	for _, s := range all {
+		if s.hazard {
+			hazards = append(hazards, s)
+		} else {
+			plain = append(plain, s)
 		}
-		sf := &SchemaFile{Name: fmt.Sprintf("schema%02d", len(files)), Shapes: all[i:j]}
+	}
+	prefix := "q"
+	if full {
+		prefix = "t"
+	}
+	emit := func(name string, shapes []shape) error {
+		sf := &SchemaFile{Name: name, Shapes: shapes}
 		var sb strings.Builder
 		sb.WriteString("package main\n\ntype S Peg {\n n int\n ok bool\n}\n\n")
-		// two groups referencing every shape rule
+		// every shape rule is referenced from two groups (both sequences: the scaffolding adds no choice) and
+		// every group twice (from Start and from Again), so that -inline removes no scaffolding closure;
+		// every third shape additionally appears as a once-referenced rule I<k> inside a wrapper W<k>,
+		// which is what -inline inlines.
 		var groups []string
-		for g := 0; g*10 < len(sf.Shapes); g++ {
-			var refs []string
-			for k := g * 10; k < g*10+10 && k < len(sf.Shapes); k++ {
-				refs = append(refs, fmt.Sprintf("T%d", k))
+		var gtext strings.Builder
+		var names []string
+		for k := range shapes {
+			names = append(names, fmt.Sprintf("T%d", k))
+			if k%3 == 0 && len(shapes) > 1 {
+				names = append(names, fmt.Sprintf("W%d", k))
+			}
+		}
+		for g := 0; g*10 < len(names); g++ {
+			var refs, rev []string
+			for k := g * 10; k < g*10+10 && k < len(names); k++ {
+				refs = append(refs, names[k])
+				rev = append([]string{names[k]}, rev...)
 			}
 			groups = append(groups, fmt.Sprintf("Ga%d", g), fmt.Sprintf("Gb%d", g))
-			fmt.Fprintf(&sb, "Ga%d <- %s\nGb%d <- %s\n", g, strings.Join(refs, " / "), g, strings.Join(refs, " "))
+			fmt.Fprintf(&gtext, "Ga%d <- %s\nGb%d <- %s\n", g, strings.Join(refs, " "), g, strings.Join(rev, " "))
 		}
-		// Start must come first
-		text := "Start <- (" + strings.Join(groups, " / ") + ") !.\n" + sb.String()[strings.Index(sb.String(), "Ga0"):]
-		head := sb.String()[:strings.Index(sb.String(), "Ga0")]
-		var rules strings.Builder
-		for k, s := range sf.Shapes {
-			fmt.Fprintf(&rules, "T%d <- %s\n", k, s.text)
+		// chunks of at most 7 groups, each referenced twice from Start
+		var chunks []string
+		var ctext strings.Builder
+		for c := 0; c*7 < len(groups); c++ {
+			hi := c*7 + 7
+			if hi > len(groups) {
+				hi = len(groups)
+			}
+			chunks = append(chunks, fmt.Sprintf("C%d", c))
+			fmt.Fprintf(&ctext, "C%d <- %s (%s)?\n", c, strings.Join(groups[c*7:hi], " "), strings.Join(groups[c*7:hi], " "))
 		}
-		content := head + text + rules.String() + schemaHelpers
+		fmt.Fprintf(&sb, "Start <- %s (%s)? !.\n%s", strings.Join(chunks, " "), strings.Join(chunks, " "), ctext.String())
+		sb.WriteString(gtext.String())
+		for k, s := range shapes {
+			fmt.Fprintf(&sb, "T%d <- %s\n", k, s.text)
+			if k%3 == 0 && len(shapes) > 1 {
+				fmt.Fprintf(&sb, "W%d <- I%d 'w' / 'v'\nI%d <- %s\n", k, k, k, s.text)
+			}
+		}
+		sb.WriteString(schemaHelpers)
 		sf.Path = filepath.Join(dir, sf.Name+".peg")
-		if err := os.WriteFile(sf.Path, []byte(content), 0o644); err != nil {
-			return nil, err
+		if err := os.WriteFile(sf.Path, []byte(sb.String()), 0o644); err != nil {
+			return err
 		}
 		files = append(files, sf)
+		return nil
+	}
+	for i := 0; i < len(plain); i += perFile {
+		j := i + perFile
+		if j > len(plain) {
+			j = len(plain)
+		}
+		if err := emit(fmt.Sprintf("%s-schema%02d", prefix, len(files)), plain[i:j]); err != nil {
+			return nil, err
+		}
+	}
+	// shapes that hit defects of the -switch optimiser which have been repaired (known_findings.json:
+	// F12, F13, F14, K02a-d) plus the witnesses of those defects: kept together in one file as a
+	// regression family
+	maxH := 30
+	if full {
+		maxH = 200
+	}
+	var hz []shape
+	for i, h := range hazards {
+		if i >= maxH {
+			break
+		}
+		hz = append(hz, h)
+	}
+	for _, t := range regressionShapes {
+		hz = append(hz, shape{text: t, desc: "regression witness"})
+	}
+	for i := 0; i < len(hz); i += perFile {
+		j := i + perFile
+		if j > len(hz) {
+			j = len(hz)
+		}
+		if err := emit(fmt.Sprintf("%s-hazards%02d", prefix, i/perFile), hz[i:j]); err != nil {
+			return nil, err
+		}
 	}
 	return files, nil
 }
